@@ -3,7 +3,7 @@
    compute_contracted / compute_flops, and what simplify_batch does to tracked flops.
    (owner: builder c18c20) *)
 From Coq Require Import Lia Permutation Sorted.
-From Ctg Require Import Base Net HGraph Simulators Compressed BaseFacts NetFacts.
+From Ctg Require Import Base Net HGraph Simulators Compressed BaseFacts NetFacts HGraphFacts.
 
 (* ------------------------------------------------------------------ *)
 (* generic helpers *)
@@ -689,4 +689,304 @@ Proof.
     + rewrite G4. reflexivity.
     + rewrite G5. reflexivity.
     + rewrite G6. reflexivity.
+Qed.
+
+(* ------------------------------------------------------------------ *)
+(* run level: with batch_factor, a run after simplify_batch reports the same flops as the same
+   run without simplify_batch (legs are the originals minus B at every step) *)
+Lemma pcontract_sorted ap il : forall jl, ssorted il -> ssorted jl -> ssorted (pcontract ap il jl).
+Proof.
+  induction il as [|[i ic] il IHi]; intros jl Si Sj.
+  - rewrite pc_nil_l. exact Sj.
+  - induction jl as [|[j jc] jl IHj].
+    + rewrite pc_nil_r. exact Si.
+    + rewrite pc_cons. destruct (Nat.ltb_spec i j) as [Hij|Hij]; [|destruct (Nat.ltb_spec j i) as [Hji|Hji]].
+      * apply sorted_cons_intro; [apply IHi; [apply (ssorted_tail _ _ Si)|exact Sj]|].
+        intros q Hq. apply pcontract_keys in Hq. destruct Hq as [Hq|Hq].
+        -- apply (ssorted_head_lt i ic il q Si Hq).
+        -- rewrite lkeys_cons in Hq. destruct Hq as [<-|Hq]; [exact Hij|].
+           pose proof (ssorted_head_lt j jc jl q Sj Hq). lia.
+      * apply sorted_cons_intro; [apply IHj, (ssorted_tail _ _ Sj)|].
+        intros q Hq. apply pcontract_keys in Hq. destruct Hq as [Hq|Hq].
+        -- rewrite lkeys_cons in Hq. destruct Hq as [<-|Hq]; [exact Hji|].
+           pose proof (ssorted_head_lt i ic il q Si Hq). lia.
+        -- apply (ssorted_head_lt j jc jl q Sj Hq).
+      * assert (i = j) by lia. subst j.
+        assert (Hlt : forall q, In q (lkeys (pcontract ap il jl)) -> i < q).
+        { intros q Hq. apply pcontract_keys in Hq. destruct Hq as [Hq|Hq];
+            [apply (ssorted_head_lt i ic il q Si Hq)|apply (ssorted_head_lt i jc jl q Sj Hq)]. }
+        pose proof (IHi jl (ssorted_tail _ _ Si) (ssorted_tail _ _ Sj)) as S'.
+        destruct (ic + jc =? papp_of ap i); cbn [Datatypes.app]; [exact S'|apply sorted_cons_intro; assumption].
+Qed.
+
+Lemma drop_ix_cons x k c l : drop_ix x ((k, c) :: l) = if Nat.eqb k x then drop_ix x l else (k, c) :: drop_ix x l.
+Proof. unfold drop_ix. cbn [filter fst]. destruct (k =? x); reflexivity. Qed.
+Lemma drop_ix_app x l1 l2 : drop_ix x (l1 ++ l2) = drop_ix x l1 ++ drop_ix x l2.
+Proof. unfold drop_ix. apply filter_app. Qed.
+Lemma drop_ix_sorted x l : ssorted l -> ssorted (drop_ix x l).
+Proof.
+  unfold ssorted. rewrite lkeys_drop. generalize (lkeys l) as ks. intros ks H.
+  induction H as [|k ks Hs IH Hf]; cbn [filter]; [constructor|].
+  destruct (negb (k =? x)); [|exact IH]. constructor; [exact IH|].
+  rewrite Forall_forall in *. intros y Hy. apply filter_In in Hy. apply Hf, Hy.
+Qed.
+
+Lemma pc_head_lt ap i ic il jl : (forall q, In q (lkeys jl) -> i < q) ->
+  pcontract ap ((i, ic) :: il) jl = (i, ic) :: pcontract ap il jl.
+Proof.
+  intros H. destruct jl as [|[j jc] jl]; [rewrite !pc_nil_r; reflexivity|].
+  rewrite pc_cons. assert (i < j) by (apply H; left; reflexivity).
+  destruct (Nat.ltb_spec i j); [reflexivity|lia].
+Qed.
+Lemma pc_head_gt ap j jc il jl : (forall q, In q (lkeys il) -> j < q) ->
+  pcontract ap il ((j, jc) :: jl) = (j, jc) :: pcontract ap il jl.
+Proof.
+  intros H. destruct il as [|[i ic] il]; [rewrite !pc_nil_l; reflexivity|].
+  rewrite pc_cons. assert (j < i) by (apply H; left; reflexivity).
+  destruct (Nat.ltb_spec i j); [lia|]. destruct (Nat.ltb_spec j i); [reflexivity|lia].
+Qed.
+
+Lemma pcontract_drop ap x il : forall jl, ssorted il -> ssorted jl ->
+  pcontract ap (drop_ix x il) (drop_ix x jl) = drop_ix x (pcontract ap il jl).
+Proof.
+  induction il as [|[i ic] il IHi]; intros jl Si Sj.
+  - cbn [drop_ix filter]. rewrite !pc_nil_l. reflexivity.
+  - induction jl as [|[j jc] jl IHj].
+    + unfold drop_ix at 2. cbn [filter]. rewrite !pc_nil_r. reflexivity.
+    + pose proof (ssorted_tail _ _ Si) as Si'. pose proof (ssorted_tail _ _ Sj) as Sj'.
+      rewrite pc_cons. destruct (Nat.ltb_spec i j) as [Hij|Hij]; [|destruct (Nat.ltb_spec j i) as [Hji|Hji]].
+      * rewrite (drop_ix_cons x i ic il), (drop_ix_cons x i ic (pcontract ap il ((j, jc) :: jl))).
+        destruct (Nat.eqb_spec i x) as [->|Hix].
+        -- apply IHi; assumption.
+        -- rewrite pc_head_lt; [f_equal; apply IHi; assumption|].
+           intros q Hq. apply in_keys_drop in Hq. destruct Hq as [Hq _]. rewrite lkeys_cons in Hq.
+           destruct Hq as [<-|Hq]; [exact Hij|]. pose proof (ssorted_head_lt j jc jl q Sj Hq). lia.
+      * rewrite (drop_ix_cons x j jc jl), (drop_ix_cons x j jc (pcontract ap ((i, ic) :: il) jl)).
+        destruct (Nat.eqb_spec j x) as [->|Hjx].
+        -- apply IHj; assumption.
+        -- rewrite pc_head_gt; [f_equal; apply IHj; assumption|].
+           intros q Hq. apply in_keys_drop in Hq. destruct Hq as [Hq _]. rewrite lkeys_cons in Hq.
+           destruct Hq as [<-|Hq]; [exact Hji|]. pose proof (ssorted_head_lt i ic il q Si Hq). lia.
+      * assert (i = j) by lia. subst j. rewrite drop_ix_app.
+        rewrite (drop_ix_cons x i ic il), (drop_ix_cons x i jc jl).
+        destruct (Nat.eqb_spec i x) as [->|Hix].
+        -- rewrite IHi by assumption.
+           destruct (ic + jc =? papp_of ap x); cbn [drop_ix filter fst Datatypes.app]; [reflexivity|].
+           rewrite Nat.eqb_refl. cbn [negb]. reflexivity.
+        -- rewrite pc_cons. destruct (Nat.ltb_spec i i); [lia|]. rewrite IHi by assumption. f_equal.
+           destruct (ic + jc =? papp_of ap i); [reflexivity|]. cbn [drop_ix filter fst].
+           destruct (Nat.eqb_spec i x); [contradiction|reflexivity].
+Qed.
+
+Lemma drop_list_sorted B : forall l, ssorted l -> ssorted (drop_list B l).
+Proof. induction B as [|x B IH]; intros l H; [exact H|]. apply (IH (drop_ix x l)), drop_ix_sorted, H. Qed.
+
+Lemma pcontract_drop_list ap B : forall il jl, ssorted il -> ssorted jl ->
+  pcontract ap (drop_list B il) (drop_list B jl) = drop_list B (pcontract ap il jl).
+Proof.
+  induction B as [|x B IH]; intros il jl Si Sj; [reflexivity|].
+  unfold drop_list. cbn [fold_left]. fold (drop_list B (drop_ix x il)) (drop_list B (drop_ix x jl)).
+  fold (drop_list B (drop_ix x (pcontract ap il jl))).
+  rewrite IH by (apply drop_ix_sorted; assumption). rewrite pcontract_drop by assumption. reflexivity.
+Qed.
+
+Lemma proc_pop_fields2 i p :
+  snd (proc_pop i p) = pget p i /\ pnodes (fst (proc_pop i p)) = adel i (pnodes p) /\
+  pszs (fst (proc_pop i p)) = pszs p /\ ptrack (fst (proc_pop i p)) = ptrack p /\
+  pbatch (fst (proc_pop i p)) = pbatch p /\ pfix (fst (proc_pop i p)) = pfix p /\
+  papp (fst (proc_pop i p)) = papp p /\ pssa (fst (proc_pop i p)) = pssa p.
+Proof. repeat split. Qed.
+Lemma proc_add_fields lg p :
+  pnodes (fst (proc_add lg p)) = aset (pssa p) lg (pnodes p) /\ pssa (fst (proc_add lg p)) = S (pssa p) /\
+  pszs (fst (proc_add lg p)) = pszs p /\ ptrack (fst (proc_add lg p)) = ptrack p /\
+  pbatch (fst (proc_add lg p)) = pbatch p /\ pfix (fst (proc_add lg p)) = pfix p /\
+  papp (fst (proc_add lg p)) = papp p.
+Proof. repeat split. Qed.
+Lemma proc_flops_fields (b : bool) f p :
+  let q := if b then proc_add_flops f p else p in
+  pnodes q = pnodes p /\ pssa q = pssa p /\ pszs q = pszs p /\ ptrack q = ptrack p /\
+  pbatch q = pbatch p /\ pfix q = pfix p /\ papp q = papp p.
+Proof. destruct b; repeat split. Qed.
+
+Lemma proc_contract_fields p i j : i <> j -> NoDup (akeys (pnodes p)) ->
+  let p' := fst (proc_contract i j p) in
+  (forall q, pget p' q = if Nat.eqb q (pssa p) then pcontract (papp p) (pget p i) (pget p j)
+                         else if Nat.eqb q i || Nat.eqb q j then [] else pget p q) /\
+  NoDup (akeys (pnodes p')) /\ pssa p' = S (pssa p) /\ papp p' = papp p /\ pszs p' = pszs p /\
+  ptrack p' = ptrack p /\ pfix p' = pfix p /\ pbatch p' = pbatch p.
+Proof.
+  intros Hij ND. unfold proc_contract.
+  pose proof (proc_pop_fields2 i p) as F1. destruct (proc_pop i p) as [p1 il]. cbn [fst snd] in F1.
+  destruct F1 as (Eil & En1 & Es1 & Et1 & Eb1 & Ef1 & Ea1 & Ex1).
+  pose proof (proc_pop_fields2 j p1) as F2. destruct (proc_pop j p1) as [p2 jl]. cbn [fst snd] in F2.
+  destruct F2 as (Ejl & En2 & Es2 & Et2 & Eb2 & Ef2 & Ea2 & Ex2).
+  assert (Ejl' : jl = pget p j).
+  { rewrite Ejl. unfold pget. rewrite En1. rewrite d_get_del_ne by (intros E; apply Hij; symmetry; exact E). reflexivity. }
+  match goal with |- context [if ptrack p2 then proc_add_flops ?f p2 else p2] =>
+    pose proof (proc_flops_fields (ptrack p2) f p2) as F3; cbn zeta in F3;
+    set (p3 := if ptrack p2 then proc_add_flops f p2 else p2) in * end.
+  destruct F3 as (En3 & Ex3 & Es3 & Et3 & Eb3 & Ef3 & Ea3).
+  match goal with |- context [proc_add ?lg p3] =>
+    pose proof (proc_add_fields lg p3) as F4; destruct (proc_add lg p3) as [p4 k] end.
+  cbn [fst snd] in *. destruct F4 as (En4 & Ex4 & Es4 & Et4 & Eb4 & Ef4 & Ea4).
+  cbn zeta. unfold proc_push_path. cbn [pnodes pssa papp pszs ptrack pfix pbatch].
+  assert (Enodes : pnodes p4 = aset (pssa p) (pcontract (papp p) (pget p i) (pget p j)) (adel j (adel i (pnodes p)))).
+  { rewrite En4, En3, En2, En1, Ex3, Ex2, Ex1, Ea3, Ea2, Ea1, Eil, Ejl'. reflexivity. }
+  split; [|split; [rewrite Enodes; apply d_nodup_set, d_nodup_del, d_nodup_del, ND|]].
+  - intros q. unfold pget at 1. cbn [pnodes]. rewrite Enodes, d_get_set.
+    destruct (q =? pssa p); [reflexivity|].
+    destruct (Nat.eqb_spec q j) as [->|Hqj]; [rewrite orb_true_r, d_get_del_eq by (apply d_nodup_del, ND); reflexivity|].
+    rewrite d_get_del_ne by exact Hqj.
+    destruct (Nat.eqb_spec q i) as [->|Hqi]; [rewrite d_get_del_eq by exact ND; reflexivity|].
+    rewrite d_get_del_ne by exact Hqi. reflexivity.
+  - repeat split; congruence.
+Qed.
+
+Lemma drop_list_nil B : drop_list B [] = [].
+Proof. induction B as [|x B IH]; [reflexivity|]. exact IH. Qed.
+
+Record BRel (B : list nat) (p1 p2 : proc) : Prop := {
+  br_app : papp p2 = papp p1; br_szs : pszs p2 = pszs p1; br_ssa : pssa p2 = pssa p1;
+  br_nd1 : NoDup (akeys (pnodes p1)); br_nd2 : NoDup (akeys (pnodes p2));
+  br_get : forall q, pget p2 q = drop_list B (pget p1 q);
+  br_sorted : forall q, ssorted (pget p1 q);
+  br_t1 : ptrack p1 = true; br_t2 : ptrack p2 = true; br_f1 : pfix p1 = true; br_f2 : pfix p2 = true;
+  br_b1 : pbatch p1 = 1%Z; br_b2 : pbatch p2 = pprod (pszs p2) B
+}.
+
+Lemma brel_step B p1 p2 i j : BRel B p1 p2 -> NoDup B -> i <> j ->
+  (forall x, In x B -> In x (lkeys (pget p1 i)) \/ In x (lkeys (pget p1 j))) ->
+  BRel B (fst (proc_contract i j p1)) (fst (proc_contract i j p2)) /\
+  (pflops_acc (fst (proc_contract i j p2)) - pflops_acc p2 =
+   pflops_acc (fst (proc_contract i j p1)) - pflops_acc p1)%Z.
+Proof.
+  intros R NB Hij HB.
+  destruct (proc_contract_fields p1 i j Hij (br_nd1 B p1 p2 R)) as (G1 & N1 & X1 & A1 & S1 & T1 & F1 & B1).
+  destruct (proc_contract_fields p2 i j Hij (br_nd2 B p1 p2 R)) as (G2 & N2 & X2 & A2 & S2 & T2 & F2 & B2).
+  cbn zeta in *.
+  pose proof (br_sorted B p1 p2 R i) as Si. pose proof (br_sorted B p1 p2 R j) as Sj.
+  split.
+  - constructor; try congruence.
+    + rewrite A2, A1. apply (br_app B p1 p2 R).
+    + rewrite S2, S1. apply (br_szs B p1 p2 R).
+    + rewrite X2, X1, (br_ssa B p1 p2 R). reflexivity.
+    + intros q. rewrite G2, G1, (br_ssa B p1 p2 R), (br_app B p1 p2 R), !(br_get B p1 p2 R).
+      destruct (q =? pssa p1); [apply pcontract_drop_list; assumption|].
+      destruct ((q =? i) || (q =? j)); [symmetry; apply drop_list_nil|reflexivity].
+    + intros q. rewrite G1. destruct (q =? pssa p1); [apply pcontract_sorted; assumption|].
+      destruct ((q =? i) || (q =? j)); [constructor|apply (br_sorted B p1 p2 R)].
+    + rewrite T1. apply (br_t1 B p1 p2 R).
+    + rewrite T2. apply (br_t2 B p1 p2 R).
+    + rewrite F1. apply (br_f1 B p1 p2 R).
+    + rewrite F2. apply (br_f2 B p1 p2 R).
+    + rewrite B1. apply (br_b1 B p1 p2 R).
+    + rewrite B2, S2. apply (br_b2 B p1 p2 R).
+  - rewrite (fixed_contract_adds p1 i j (br_t1 B p1 p2 R) (br_f1 B p1 p2 R) Hij).
+    rewrite (fixed_contract_adds p2 i j (br_t2 B p1 p2 R) (br_f2 B p1 p2 R) Hij).
+    rewrite (br_b1 B p1 p2 R), (br_b2 B p1 p2 R), !(br_get B p1 p2 R), (br_szs B p1 p2 R).
+    rewrite (batch_factor_restores_flops (pszs p1) B (pget p1 i) (pget p1 j) NB (ssorted_nodup _ Si) (ssorted_nodup _ Sj) HB).
+    lia.
+Qed.
+
+(* every batch index sits on one of the two operands, at every step of the unsimplified run *)
+Fixpoint present_b (B : list nat) (p1 : proc) (path : list (nat * nat)) : bool :=
+  match path with
+  | [] => true
+  | (i, j) :: path' =>
+      negb (Nat.eqb i j) &&
+      forallb (fun x => memb x (lkeys (pget p1 i)) || memb x (lkeys (pget p1 j))) B &&
+      present_b B (fst (proc_contract i j p1)) path'
+  end.
+
+Definition run_path (p : proc) (path : list (nat * nat)) : proc :=
+  proc_run p (map (fun ij => OpContract (fst ij) (snd ij)) path).
+
+Theorem brel_run B path : forall p1 p2, BRel B p1 p2 -> NoDup B -> present_b B p1 path = true ->
+  (pflops_acc (run_path p2 path) - pflops_acc p2 = pflops_acc (run_path p1 path) - pflops_acc p1)%Z.
+Proof.
+  induction path as [|[i j] path IH]; intros p1 p2 R NB Hp; [unfold run_path; cbn; lia|].
+  cbn [present_b] in Hp. apply andb_true_iff in Hp. destruct Hp as [Hp Hrest]. apply andb_true_iff in Hp.
+  destruct Hp as [Hij HB]. apply negb_true_iff, Nat.eqb_neq in Hij. rewrite forallb_forall in HB.
+  assert (HB' : forall x, In x B -> In x (lkeys (pget p1 i)) \/ In x (lkeys (pget p1 j))).
+  { intros x Hx. specialize (HB x Hx). apply orb_true_iff in HB. rewrite !memb_In in HB. exact HB. }
+  destruct (brel_step B p1 p2 i j R NB Hij HB') as [R' E].
+  specialize (IH _ _ R' NB Hrest).
+  unfold run_path in *. cbn [map fst snd proc_run fold_left proc_step] in *. unfold proc_run in *. lia.
+Qed.
+
+(* simplify_batch keeps the node identifiers *)
+Lemma remove_ix_keys x p : akeys (pnodes (proc_remove_ix x p)) = akeys (pnodes p).
+Proof.
+  unfold proc_remove_ix. cbn [pnodes]. generalize (match aget x (pedges p) with Some l => l | None => [] end) as ks.
+  intros ks. generalize (pnodes p) as nd. unfold plegs. induction ks as [|k ks IH]; intros nd; cbn [fold_left]; [reflexivity|].
+  rewrite IH. destruct (aget k nd) as [l|] eqn:E; [|reflexivity].
+  apply d_keys_set_in. destruct (in_dec Nat.eq_dec k (akeys nd)) as [H|H]; [exact H|]. apply d_get_none in H. congruence.
+Qed.
+Lemma simplify_batch_keys p : akeys (pnodes (proc_simplify_batch p)) = akeys (pnodes p).
+Proof.
+  unfold proc_simplify_batch. generalize (batch_indices p) as B. intros B. revert p.
+  induction B as [|x B IH]; intros p; cbn [fold_left]; [reflexivity|]. rewrite IH, remove_ix_keys. reflexivity.
+Qed.
+
+(* the code as it is now: after simplify_batch the reported flops of any run are those the same
+   run reports without simplify_batch, i.e. with every operand's full legs *)
+Theorem fixed_run_eq_unsimplified p path :
+  ptrack p = true -> pfix p = true -> pbatch p = 1%Z -> proc_edges_ok p ->
+  NoDup (akeys (pnodes p)) -> (forall q, ssorted (pget p q)) -> NoDup (batch_indices p) ->
+  present_b (batch_indices p) p path = true ->
+  (pflops_acc (run_path (proc_simplify_batch p) path) - pflops_acc p =
+   pflops_acc (run_path p path) - pflops_acc p)%Z.
+Proof.
+  intros Ht Hf Hb Hok ND Hs NB Hp.
+  destruct (simplify_batch_spec p Hok) as (G & Bf & Sz & Ac & Tr & Fx). cbn zeta in *.
+  assert (R : BRel (batch_indices p) p (proc_simplify_batch p)).
+  { constructor; try assumption; try congruence.
+    - clear. unfold proc_simplify_batch. generalize (batch_indices p). intros B. revert p.
+      induction B as [|x B IH]; intros p; cbn [fold_left]; [reflexivity|]. rewrite IH. reflexivity.
+    - clear. unfold proc_simplify_batch. generalize (batch_indices p). intros B. revert p.
+      induction B as [|x B IH]; intros p; cbn [fold_left]; [reflexivity|]. rewrite IH. reflexivity.
+    - rewrite simplify_batch_keys. exact ND.
+    - rewrite Bf, Hb, Sz. lia. }
+  pose proof (brel_run (batch_indices p) path p (proc_simplify_batch p) R NB Hp) as E.
+  rewrite Ac in E. exact E.
+Qed.
+
+(* boolean form of the structural hypotheses, evaluated per run *)
+Fixpoint ssorted_from_b (lo : nat) (l : plegs) : bool :=
+  match l with
+  | [] => true
+  | (k, _) :: l' => Nat.ltb lo k && ssorted_from_b k l'
+  end.
+Definition ssorted_b (l : plegs) : bool :=
+  match l with [] => true | (k, _) :: l' => ssorted_from_b k l' end.
+
+Lemma ssorted_from_b_sound l : forall lo, ssorted_from_b lo l = true ->
+  ssorted l /\ forall q, In q (lkeys l) -> lo < q.
+Proof.
+  induction l as [|[k c] l IH]; intros lo H; cbn in H.
+  - split; [constructor|intros q []].
+  - apply andb_true_iff in H. destruct H as [H1 H2]. apply Nat.ltb_lt in H1. destruct (IH k H2) as [S Hq].
+    split; [apply sorted_cons_intro; assumption|].
+    intros q. rewrite lkeys_cons. intros [<-|Hin]; [exact H1|]. specialize (Hq q Hin). lia.
+Qed.
+Lemma ssorted_b_sound l : ssorted_b l = true -> ssorted l.
+Proof.
+  destruct l as [|[k c] l]; intros H; [constructor|]. cbn in H. destruct (ssorted_from_b_sound l k H) as [S Hq].
+  apply sorted_cons_intro; assumption.
+Qed.
+
+Definition proc_ok_b (p : proc) : bool :=
+  ptrack p && pfix p && Z.eqb (pbatch p) 1 && proc_edges_ok_b p && nodup_nat_b (akeys (pnodes p)) &&
+  forallb (fun it => ssorted_b (snd it)) (pnodes p) && nodup_nat_b (batch_indices p).
+
+Theorem fixed_run_eq_unsimplified_checked p path :
+  proc_ok_b p = true -> present_b (batch_indices p) p path = true ->
+  pflops_acc (run_path (proc_simplify_batch p) path) = pflops_acc (run_path p path).
+Proof.
+  unfold proc_ok_b. rewrite !andb_true_iff. intros [[[[[[Ht Hf] Hb] He] Hn] Hs] Hnb] Hp.
+  apply Z.eqb_eq in Hb. apply proc_edges_ok_b_sound in He. apply nodup_nat_b_sound in Hn. apply nodup_nat_b_sound in Hnb.
+  assert (Hs' : forall q, ssorted (pget p q)).
+  { intros q. unfold pget. destruct (aget q (pnodes p)) as [l|] eqn:E; [|constructor].
+    rewrite forallb_forall in Hs. apply ssorted_b_sound. apply (Hs (q, l) (d_get_in _ _ _ E)). }
+  pose proof (fixed_run_eq_unsimplified p path Ht Hf Hb He Hn Hs' Hnb Hp). lia.
 Qed.
